@@ -9,6 +9,7 @@ import PopsModel.Driver.NetEng
 import PopsModel.Driver.KernEng
 import PopsModel.Driver.DetEng
 import PopsModel.Driver.HostEng
+import PopsModel.Driver.MultiEng
 import PopsModel.Driver.StreamEng
 import PopsModel.Driver.ErrEng
 namespace Pops.Driver
@@ -21,6 +22,7 @@ structure DState where
   kern : KernEng.State := {}
   det : DetEng.State := {}
   host : HostEng.State := {}
+  multi : MultiEng.State := {}
   stream : StreamEng.State := {}
   err : ErrEng.State := {}
 
@@ -55,6 +57,9 @@ def step (st : DState) (line : String) : DState × String :=
     else if cmd.startsWith "hp." then
       let (s', out) := HostEng.handle st.host cmd args obs
       ({ st with host := s' }, out)
+    else if cmd.startsWith "mh." then
+      let (s', out) := MultiEng.handle st.multi cmd args obs
+      ({ st with multi := s' }, out)
     else if cmd.startsWith "rng." then
       let (s', out) := StreamEng.handle st.stream cmd args obs
       ({ st with stream := s' }, out)
